@@ -2,6 +2,7 @@ package main
 
 import (
 	"fmt"
+	"go/constant"
 	"go/token"
 	"go/types"
 	"sort"
@@ -385,12 +386,38 @@ func (t *tracer) traceInto(c *ssa.Call, g *ssa.Function, resIdx int, ctx []callC
 		return
 	}
 	rets := returnsOf(g)
+	ei := errResultIndex(g)
 	for _, r := range rets {
 		rv := retVals(r)
 		if resIdx < len(rv) {
+			// the `return nil, err` of a failing helper: the zero value that accompanies a non-nil error is never used by
+			// a caller that checks the error – it is not an origin of the value on the success path
+			if ei >= 0 && ei != resIdx && ei < len(rv) && !isNilConst(rv[ei]) && isZeroConst(rv[resIdx]) {
+				continue
+			}
 			t.trace(rv[resIdx], append(append([]callCtx{}, ctx...), callCtx{c, g}), depth+1, prefix)
 		}
 	}
+}
+
+// isZeroConst: v is the constant zero value of its type (nil, "", 0, false).
+func isZeroConst(v ssa.Value) bool {
+	c, ok := v.(*ssa.Const)
+	if !ok {
+		return false
+	}
+	if c.Value == nil {
+		return true
+	}
+	switch c.Value.Kind() {
+	case constant.String:
+		return constant.StringVal(c.Value) == ""
+	case constant.Bool:
+		return !constant.BoolVal(c.Value)
+	case constant.Int, constant.Float:
+		return constant.Sign(c.Value) == 0
+	}
+	return false
 }
 
 // classifyGetKey describes which schema and attribute table a GetKey call uses.
